@@ -125,7 +125,7 @@ CHECKS = {
         text="All MILPs with <=2 variables and <=2 rows over A in {-1,0,1,2}, b in {-1..3}, c in {-1,0,1,2}, every subset of integer "
         "variables, min and max, heuristics on/off; the configuration menu (warm starts incl. infeasible by a row, by sign, fractional, "
         "wrong length; solution_limit; LNS seeds) on every instance whose root relaxation is fractional; 3-variable families with "
-        "explicit binary bounds and with rows that only look like binary bounds. Every returned point is checked for Ax<=b, x>=0, "
+        "explicit binary bounds and with rows that only look like binary bounds; a 2x2 space with entries 3/-3 (node LPs with thirds); iteration and node limits (max_iter 1..3, max_nodes 1..2); ordered call pairs under the same LNS seed and warm start. Every returned point is checked for Ax<=b, x>=0, "
         "integrality and objective = c.x; OPTIMAL/INFEASIBLE/UNBOUNDED are compared with the exact verdict.",
         note="Trusts: vf/lpref.py (exact rational LP) and lattice enumeration. Instances with an integer variable unbounded in the "
         "relaxation but a bounded objective are filtered out; for relaxation-unbounded instances only UNBOUNDED claims and returned "
@@ -138,11 +138,11 @@ CHECKS = {
         engine="E1",
         technique=E1 + "; all small LPs over integer alphabets, exact rational vertex-enumeration oracle with duality self-check",
         text="All LPs with (n,m) up to (2,2) over A in {-1,0,1,2}, b in {-2..2}, c in {-1,0,1,2}, all (2,3),(3,2),(1,3),(3,1) shapes and "
-        "complete blocks of the 3x3 shape over {-1,0,1}, min and max: solve_lp's status must equal the exact verdict and its point "
+        "complete blocks of the 3x3 shape over {-1,0,1}, (2,2) and (3,2) shapes with entries 3/-3 (tableaux with thirds, i.e. rounding residue), every 4th LP also under max_iter 1..3 (1..8 for the interior point), min and max: solve_lp's status must equal the exact verdict and its point "
         "must be feasible with objective = c.x = exact optimum; solve_lp_interior must never raise, never say OPTIMAL without a "
         "matching optimum, and any FEASIBLE answer must be within the 0.01 residual.",
         note="Trusts: Gaussian elimination over fractions.Fraction (oracle aborts as broken if strong duality fails). Bound: "
-        "<= 3 variables, <= 3 rows, coefficients in {-2..3}; MAX_ITER from solve_lp is exempt and counted.",
+        "<= 3 variables, <= 3 rows, coefficients in {-3..3}, right-hand sides up to 6; MAX_ITER from solve_lp is exempt and counted.",
         ref="2/C03",
     ),
     "C16": dict(
